@@ -203,7 +203,11 @@ func classify(o Outcome) string {
 		for _, f := range fs {
 			if !strings.Contains(f[1], "Verif") && !strings.HasPrefix(f[1], "mm") && f[1] != "init" &&
 				!strings.Contains(f[1], "yaccParseAny.func") {
-				return "panic in " + f[1]
+				site := f[1]
+				if i := strings.Index(site, "(0x"); i > 0 {
+					site = site[:i] // the arguments of the frame are not part of the site
+				}
+				return "panic in " + site
 			}
 		}
 		return "panic"
